@@ -8,11 +8,15 @@ import (
 	"net/http"
 	"strconv"
 	"strings"
+	"sync"
+	"time"
 
 	fingerproxy "github.com/wi1dcard/fingerproxy"
 )
 
 type e2eCase struct {
+	tagPfx  string
+	delayMs int
 	proto   string
 	cc      clientCfg
 	probe   bool
@@ -33,6 +37,10 @@ func parseE2E(a []string) *e2eCase {
 		switch k {
 		case "proto":
 			c.proto = v
+		case "pfx":
+			c.tagPfx = v
+		case "delay":
+			c.delayMs, _ = strconv.Atoi(v)
 		case "client":
 			c.cc.kind = v
 		case "alpn":
@@ -87,6 +95,9 @@ func parseE2E(a []string) *e2eCase {
 				c.reqs = append(c.reqs, r)
 			}
 		}
+	}
+	for j := range c.reqs {
+		c.reqs[j].tag = c.tagPfx + c.reqs[j].tag
 	}
 	return c
 }
@@ -225,10 +236,84 @@ func e2eReqTok(method, path, host, ua string, hasUA bool, order string, extra []
 func init() {
 	registerOp("e2e", func(a []string) string { return runE2E(parseE2E(a), nil) })
 
-	register("e2e", "end-to-end: real TLS handshakes (crypto/tls and utls presets) through the real proxy stack to a recording backend", func(c *ctx) {
-		kinds := []string{"go", "go", "utls-chrome", "utls-firefox", "utls-safari", "utls-ios", "utls-random", "utls-edge", "utls-360", "utls-qq", "utls-golang"}
+	// e2emulti probe=.. ph=.. maxprio=.. || <client scenario> || <client scenario> ...
+	// all clients run CONCURRENTLY against ONE proxy stack (C06)
+	registerOp("e2emulti", func(a []string) string {
+		var groups [][]string
+		cur := []string{}
+		for _, t := range a {
+			if t == "||" {
+				groups = append(groups, cur)
+				cur = []string{}
+			} else {
+				cur = append(cur, t)
+			}
+		}
+		groups = append(groups, cur)
+		head := parseE2E(groups[0])
+		o := defaultE2EOpts()
+		o.EnableProbe, o.PreserveHost = head.probe, head.ph
+		if head.maxprio == "unset" {
+			o.UnsetMaxPrio = true
+		} else {
+			n, _ := strconv.ParseUint(head.maxprio, 10, 64)
+			o.MaxH2PriorityFrames = uint(n)
+		}
+		env := newE2EEnv(o)
+		defer env.close()
+		res := make([]string, len(groups)-1)
+		var wg sync.WaitGroup
+		for i, g := range groups[1:] {
+			wg.Add(1)
+			go func(i int, g []string) {
+				defer wg.Done()
+				c := parseE2E(append(append([]string{}, groups[0]...), g...))
+				time.Sleep(time.Duration(c.delayMs) * time.Millisecond)
+				res[i] = runE2E(c, env)
+			}(i, g)
+		}
+		wg.Wait()
+		return strings.Join(res, " || ")
+	})
+
+	register("e2emulti", "C06: N concurrent clients with pairwise different hellos and HTTP/2 preambles against ONE stack", func(c *ctx) {
 		for i := 0; i < c.count; i++ {
 			r := c.rng.fork()
+			n := []int{2, 4, 8, 16, 32}[r.intn(5)]
+			if c.tier == "thorough" && r.chance(1, 6) {
+				n = 64
+			}
+			head := fmt.Sprintf("probe=%d ph=%d maxprio=%s", b2i(!r.chance(1, 4)), r.intn(2), []string{"10000", "0", "1", "2", "unset"}[r.intn(5)])
+			parts := []string{head}
+			for k := 0; k < n; k++ {
+				sc := genE2EScenario(c, r.fork(), true)
+				parts = append(parts, fmt.Sprintf("pfx=c%d- delay=%d %s", k, r.intn(30), sc))
+			}
+			c.tag("clients:" + bucket(n))
+			c.op("e2emulti " + strings.Join(parts, " || "))
+		}
+	})
+
+	register("e2e", "end-to-end: real TLS handshakes (crypto/tls and utls presets) through the real proxy stack to a recording backend", func(c *ctx) {
+		for i := 0; i < c.count; i++ {
+			r := c.rng.fork()
+			line := "e2e " + genE2EScenario(c, r, false)
+			res := c.op(line)
+			if strings.HasPrefix(res, "fail=") {
+				c.tag("result:fail")
+			} else {
+				c.tag("result:ok")
+			}
+		}
+	})
+}
+
+// genE2EScenario: one client's scenario (TLS stack and parameters, protocol, requests, HTTP/2 frame script);
+// `sub`: as part of e2emulti (server options come from the head group).
+func genE2EScenario(c *ctx, r *rng, sub bool) string {
+	kinds := []string{"go", "go", "utls-chrome", "utls-firefox", "utls-safari", "utls-ios", "utls-random", "utls-edge", "utls-360", "utls-qq", "utls-golang"}
+	{
+		{
 			kind := kinds[r.intn(len(kinds))]
 			proto := []string{"h1", "h2"}[r.intn(2)]
 			alpn := "h2,http/1.1"
@@ -318,14 +403,12 @@ func init() {
 			}
 			c.tag("client:" + kind)
 			c.tag("proto:" + proto)
-			line := fmt.Sprintf("e2e proto=%s client=%s alpn=%s sni=%s peer=%s seg=%d probe=%d ph=%d maxprio=%s%s reqs=%s frames=%s", proto, kind, alpn, sni, peer,
-				[]int{0, 0, 1, 2, 3}[r.intn(5)], b2i(!r.chance(1, 4)), r.intn(2), []string{"10000", "0", "1", "2", "unset"}[r.intn(5)], extraOpts, strings.Join(reqs, ";"), fr)
-			res := c.op(line)
-			if strings.HasPrefix(res, "fail=") {
-				c.tag("result:fail")
-			} else {
-				c.tag("result:ok")
+			opts := fmt.Sprintf(" probe=%d ph=%d maxprio=%s", b2i(!r.chance(1, 4)), r.intn(2), []string{"10000", "0", "1", "2", "unset"}[r.intn(5)])
+			if sub {
+				opts = ""
 			}
+			return fmt.Sprintf("proto=%s client=%s alpn=%s sni=%s peer=%s seg=%d%s%s reqs=%s frames=%s", proto, kind, alpn, sni, peer,
+				[]int{0, 0, 1, 2, 3}[r.intn(5)], opts, extraOpts, strings.Join(reqs, ";"), fr)
 		}
-	})
+	}
 }
